@@ -1,7 +1,7 @@
 (** C02 - only length-consistent, CRC-valid frames are ever accepted. *)
 From Coq Require Import String ZArith List.
 From NX Require Import Bytes Frame Wire ErrClass Dispatch_proofs C02_proofs C02_detect.
-From NX Require PyLite Src_all Src_serialframe_proofs Src_frame_corollaries.
+From NX Require PyLite Src_all Src_serialframe_proofs Src_frame_corollaries Src_parserecv_proofs Src_request_corollaries.
 Open Scope Z_scope.
 
 (** client decoder: accepted iff SOF, known id, 6 <= declared length <= bytes
@@ -52,6 +52,7 @@ Proof. exact corrupted_request_ignored. Qed.
 Section OnSource.
 Import PyLite Src_all Src_serialframe_proofs Src_frame_corollaries.
 Open Scope string_scope.
+Open Scope list_scope.
 
 (** ANY byte string: either it is an accepted frame and the decoder returns exactly that
     id and payload, or nothing is accepted for it and the decoder returns an error object
@@ -75,6 +76,34 @@ Theorem C02_detect_src : forall n fid p e,
   call_method program (3 + n) sf "frame_decode" [PBytes (xor_bytes (wire (Z.to_N fid) p) e)] = PyLite.Ok (rejected_foot, sf).
 Proof. exact src_corrupted_frame_rejected. Qed.
 
+(** the device-side dispatcher ParseRecv.recv_handle of parserecv.py on ANY byte string, with
+    recording callbacks ([pr lg] holds the log of calls made so far): nothing is called, or the
+    string cropped at its first start byte is an accepted request and exactly its payload goes to
+    the right callback, or the payload-size assertion of that callback fails *)
+Theorem C02_dispatch_decides_src : forall n lg d,
+  wf_bytes d ->
+  (recv_dispatch d = DNone /\
+   call_method program (4 + n) (Src_parserecv_proofs.pr lg) "recv_handle" [PBytes d] =
+   PyLite.Ok (PNone, Src_parserecv_proofs.pr lg))
+  \/
+  (exists r p pre d' fid,
+     d = pre ++ d' /\ no_sof pre /\ accepts d' fid p /\
+     recv_cb_handle (Z.of_N fid) p = DCall r p /\
+     call_method program (4 + n) (Src_parserecv_proofs.pr lg) "recv_handle" [PBytes d] =
+     PyLite.Ok (PNone, Src_request_corollaries.logged lg (Src_parserecv_proofs.name_of r) p))
+  \/
+  (recv_dispatch d = DAssert /\
+   call_method program (4 + n) (Src_parserecv_proofs.pr lg) "recv_handle" [PBytes d] = Exc "AssertionError").
+Proof. exact Src_request_corollaries.src_dispatch_decides. Qed.
+
+Theorem C02_detect_dispatch_src : forall n lg fid p e,
+  0 <= fid <= 8 -> wf_bytes p -> zlen (wire (Z.to_N fid) p) <= 4095 ->
+  length e = length (wire (Z.to_N fid) p) -> wf_bytes e ->
+  length_intact e -> nth 0 e 0%N = 0%N -> err_class (bits_of e) ->
+  call_method program (4 + n) (Src_parserecv_proofs.pr lg) "recv_handle"
+    [PBytes (xor_bytes (wire (Z.to_N fid) p) e)] = PyLite.Ok (PNone, Src_parserecv_proofs.pr lg).
+Proof. exact Src_request_corollaries.src_corrupted_request_ignored. Qed.
+
 Theorem C02_source_refines_model : forall n d,
   call_method program (3 + n) sf "frame_decode" [PBytes d] =
   PyLite.bind (emb_frame (Frame.frame_decode d)) (fun v => PyLite.Ok (v, sf)).
@@ -96,3 +125,4 @@ Print Assumptions C02_detect.
 Print Assumptions C02_decode_decides_src.
 Print Assumptions C02_detect_src.
 Print Assumptions C02_detect_dispatch.
+Print Assumptions C02_dispatch_decides_src.
